@@ -170,6 +170,11 @@ def main(pid, tier):
     for c in syscases[:(150 if tier == "quick" else 5000)]:
         jobs.append(("system", None, c))
     ck.phase("tlc_system")
+    # implementation layer of the writer: stack channels, prv.c (duplicate / zero / NEXT rules, one line
+    # per emitted change, non-decreasing times, header = last advance) and track.c, replayed in process
+    from checks import chanprv
+    chanprv.run(ck, tier, bdir)
+    ck.phase("chanprv_layer")
 
     jobs += special_families()
 
